@@ -694,7 +694,7 @@ class SamplingMethod(DirectMethod):
             if 'r_at_tf' in [a.name() for a in symvar(e)]:
                 opti.subject_to(e, args["scale"], meta=meta)
 
-    def add_inf_constraints(self, stage, opti, c, k, l, meta):
+    def add_inf_constraints(self, stage, opti, c, k, l, meta, scale=1):
         # Query the discretization method used for polynomial coefficients
         #   interpretation: state ~= coeff * [t^0;t^1;t^2;...]
         #                    t is physical time, but starting at 0 at the beginning of the interval
@@ -745,7 +745,7 @@ class SamplingMethod(DirectMethod):
         # those same operations being relayed onto BSpline coefficients
         # see https://gitlab.kuleuven.be/meco-software/rockit/-/blob/v0.1.28/rockit/splines/spline.py#L520-521
         try:
-            opti.subject_to(self.eval_at_control(stage, c_spline, k), meta=meta)
+            opti.subject_to(self.eval_at_control(stage, c_spline, k), scale=scale, meta=meta)
         except IndexError:
             pass
     def fill_placeholders_integral_control(self, phase, stage, expr, refine=1):
